@@ -117,11 +117,17 @@ Inductive op :=
 | Dealloc (priv : Z)
 | Get (priv : Z)
 | Stats
-| ConcObs (o : concobs).
+| ConcObs (o : concobs)
+(* the same two calls with fault oracles (harness-controlled failures at the call sites):
+   fm = the subscriber_nat map call of this operation fails (AllocateNAT: Put; DeallocateNAT: Delete)
+   fl = the log writer fails while the record of this operation is written (the record is lost) *)
+| AllocF (priv : Z) (fm fl : bool)
+| DeallocF (priv : Z) (fm fl : bool).
 
 Inductive res :=
 | RNone
-| RErr (e : Z)                      (* 0 = pool exhausted, 2 = public IP already in the pool *)
+| RErr (e : Z)                      (* 0 = pool exhausted, 2 = public IP already in the pool,
+                                       3 = subscriber_nat update failed, 4 = subscriber_nat delete failed *)
 | RAlloc (a : aview)
 | RGet (a : option aview)
 | RStats (count : Z) (pool : list (Z * Z * Z)).   (* (ip, Subscribers, MaxSubscribers) *)
@@ -188,7 +194,68 @@ Definition mk_out (r : res) (l : list logrec) : out := {| o_res := r; o_logs := 
 (* ghost markers:
    (1001 was: block index derived from the subscriber count differs from the lowest free index;
          repaired in /repo, see known_findings/C10.json K10a)
-   1002  a uint16 conversion changed a value (configuration outside 1 <= pps, 0 <= start <= end <= 65535) *)
+   1002  a uint16 conversion changed a value (configuration outside 1 <= pps, 0 <= start <= end <= 65535)
+   1003  the log writer failed: the record of an assignment / release is lost (K10e) *)
+Definition lost_marker (m : logmode) (fl : bool) : list N :=
+  match m with LogOff => [] | _ => if fl then [1003%N] else [] end.
+
+(* AllocateNAT.  Order of the code: existing allocation (fast path, no map access, no record);
+   pool entry + block; ports; getOrCreateSubscriberID; subscriber_nat update -- on failure the call
+   returns an error with only the subscriber id registered; then table, count, used block, record. *)
+Definition do_alloc (s : state) (priv : Z) (fm fl : bool) : state * out * list N :=
+  let c := s_cfg s in
+  match find_alloc priv (s_allocs s) with
+  | Some a => (s, mk_out (RAlloc (view a)) [], [])
+  | None =>
+      match select_pool O (s_pool s) with
+      | None => (s, mk_out (RErr 0) [], [])
+      | Some (i, p, b) =>
+          let raw := c_start c + b * c_pps c in
+          let pstart := wrap16 raw in
+          let pend := wrap16 (pstart + wrap16 (c_pps c) - 1) in
+          let '(sid, next, sids) :=
+            match find_sid priv (s_sids s) with
+            | Some v => (v, s_next_sid s, s_sids s)
+            | None => (s_next_sid s, s_next_sid s + 1, (priv, s_next_sid s) :: s_sids s)
+            end in
+          let a := {| a_priv := priv; a_pub := p_ip p; a_start := pstart; a_end := pend;
+                      a_pool := i; a_sid := sid; a_blk := b |} in
+          let mk2 := if (pstart =? raw) && (wrap16 (c_pps c) =? c_pps c) && (pend =? raw + c_pps c - 1)
+                     then [] else [1002%N] in
+          if fm then
+            ({| s_cfg := c; s_mode := s_mode s; s_pool := s_pool s; s_allocs := s_allocs s;
+                s_next_sid := next; s_sids := sids; s_clock := s_clock s; s_log := s_log s |},
+             mk_out (RErr 3) [], [])
+          else
+          let recs := if fl then [] else log_alloc (s_mode s) a in
+          ({| s_cfg := c; s_mode := s_mode s;
+              s_pool := upd_pool i (fun q => {| p_ip := p_ip q; p_subs := p_subs q + 1; p_max := p_max q;
+                                                p_used := b :: p_used q |}) (s_pool s);
+              s_allocs := a :: s_allocs s; s_next_sid := next; s_sids := sids;
+              s_clock := s_clock s; s_log := map (fun r => (s_clock s, r)) recs ++ s_log s |},
+           mk_out (RAlloc (view a)) recs, mk2 ++ lost_marker (s_mode s) fl)
+      end
+  end.
+
+(* DeallocateNAT (after the repair K10f): not allocated -> nil; the subscriber_nat entry is deleted
+   first, while the allocation is still tracked -- a failing delete returns an error and changes
+   nothing; then table, count, used block, record. *)
+Definition do_dealloc (s : state) (priv : Z) (fm fl : bool) : state * out * list N :=
+  let c := s_cfg s in
+  match find_alloc priv (s_allocs s) with
+  | None => (s, mk_out RNone [], [])
+  | Some a =>
+      if fm then (s, mk_out (RErr 4) [], []) else
+      let recs := if fl then [] else log_dealloc (s_mode s) a in
+      ({| s_cfg := c; s_mode := s_mode s;
+          s_pool := upd_pool (a_pool a)
+                      (fun q => {| p_ip := p_ip q; p_subs := p_subs q - 1; p_max := p_max q;
+                                   p_used := filter (fun x => negb (x =? a_blk a)) (p_used q) |}) (s_pool s);
+          s_allocs := remove_alloc priv (s_allocs s); s_next_sid := s_next_sid s; s_sids := s_sids s;
+          s_clock := s_clock s; s_log := map (fun r => (s_clock s, r)) recs ++ s_log s |},
+       mk_out RNone recs, lost_marker (s_mode s) fl)
+  end.
+
 Definition step_body (s : state) (o : op) : state * out * list N :=
   let c := s_cfg s in
   match o with
@@ -198,47 +265,10 @@ Definition step_body (s : state) (o : op) : state * out * list N :=
       ({| s_cfg := c; s_mode := s_mode s; s_pool := s_pool s ++ [e]; s_allocs := s_allocs s;
           s_next_sid := s_next_sid s; s_sids := s_sids s; s_clock := s_clock s; s_log := s_log s |},
        mk_out RNone [], [])
-  | Alloc priv =>
-      match find_alloc priv (s_allocs s) with
-      | Some a => (s, mk_out (RAlloc (view a)) [], [])
-      | None =>
-          match select_pool O (s_pool s) with
-          | None => (s, mk_out (RErr 0) [], [])
-          | Some (i, p, b) =>
-              let raw := c_start c + b * c_pps c in
-              let pstart := wrap16 raw in
-              let pend := wrap16 (pstart + wrap16 (c_pps c) - 1) in
-              let '(sid, next, sids) :=
-                match find_sid priv (s_sids s) with
-                | Some v => (v, s_next_sid s, s_sids s)
-                | None => (s_next_sid s, s_next_sid s + 1, (priv, s_next_sid s) :: s_sids s)
-                end in
-              let a := {| a_priv := priv; a_pub := p_ip p; a_start := pstart; a_end := pend;
-                          a_pool := i; a_sid := sid; a_blk := b |} in
-              let recs := log_alloc (s_mode s) a in
-              let mk2 := if (pstart =? raw) && (wrap16 (c_pps c) =? c_pps c) && (pend =? raw + c_pps c - 1)
-                         then [] else [1002%N] in
-              ({| s_cfg := c; s_mode := s_mode s;
-                  s_pool := upd_pool i (fun q => {| p_ip := p_ip q; p_subs := p_subs q + 1; p_max := p_max q;
-                                                    p_used := b :: p_used q |}) (s_pool s);
-                  s_allocs := a :: s_allocs s; s_next_sid := next; s_sids := sids;
-                  s_clock := s_clock s; s_log := map (fun r => (s_clock s, r)) recs ++ s_log s |},
-               mk_out (RAlloc (view a)) recs, mk2)
-          end
-      end
-  | Dealloc priv =>
-      match find_alloc priv (s_allocs s) with
-      | None => (s, mk_out RNone [], [])
-      | Some a =>
-          let recs := log_dealloc (s_mode s) a in
-          ({| s_cfg := c; s_mode := s_mode s;
-              s_pool := upd_pool (a_pool a)
-                          (fun q => {| p_ip := p_ip q; p_subs := p_subs q - 1; p_max := p_max q;
-                                       p_used := filter (fun x => negb (x =? a_blk a)) (p_used q) |}) (s_pool s);
-              s_allocs := remove_alloc priv (s_allocs s); s_next_sid := s_next_sid s; s_sids := s_sids s;
-              s_clock := s_clock s; s_log := map (fun r => (s_clock s, r)) recs ++ s_log s |},
-           mk_out RNone recs, [])
-      end
+  | Alloc priv => do_alloc s priv false false
+  | AllocF priv fm fl => do_alloc s priv fm fl
+  | Dealloc priv => do_dealloc s priv false false
+  | DeallocF priv fm fl => do_dealloc s priv fm fl
   | Get priv => (s, mk_out (RGet (option_map view (find_alloc priv (s_allocs s)))) [], [])
   | Stats =>
       (s, mk_out (RStats (Z.of_nat (length (s_allocs s)))
@@ -252,83 +282,3 @@ Definition step (s : state) (o : op) : state * out * list N := step_body (tick s
 Definition run (s : state) (ops : list op) : state :=
   fold_left (fun st o => fst (fst (step st o))) ops s.
 
-(* ------------------------------------------------------------------------------------------
-   The Manager with a real subscriber_nat kernel map (the nil-map Manager above never executes
-   the map-write path).  The map is a hash map of [k_max] entries; the harness may hold entries of
-   its own in it (KPut / KDel: foreign keys) so that an update fails at a chosen point.
-   AllocateNAT as coded: the existing-allocation fast path does not touch the map; otherwise pool
-   entry, block, ports and the subscriber id are determined, then subscriberNAT.Put; when the Put
-   fails the call returns an error BEFORE the allocation is tracked, the block reserved, the
-   count incremented or the record logged -- only the subscriber id stays registered.
-   DeallocateNAT deletes the key (a failing Delete is only logged by zap). *)
-Record kentry := { ke_key : Z; ke_pub : Z; ke_start : Z; ke_end : Z; ke_next : Z; ke_sid : Z;
-                   ke_log2 : Z; ke_rest0 : bool }.   (* ke_rest0: every other field of the value is 0 *)
-
-Record kstate := { k_s : state; k_max : Z; k_map : list kentry }.   (* k_map sorted by key *)
-Definition kinit (c : cfg) (m : logmode) (max : Z) : kstate := {| k_s := init c m; k_max := max; k_map := [] |}.
-
-Fixpoint kmap_mem (k : Z) (l : list kentry) : bool :=
-  match l with [] => false | e :: tl => (ke_key e =? k) || kmap_mem k tl end.
-Fixpoint kmap_ins (e : kentry) (l : list kentry) : list kentry :=
-  match l with
-  | [] => [e]
-  | x :: tl => if ke_key e <? ke_key x then e :: l
-               else if ke_key e =? ke_key x then e :: tl else x :: kmap_ins e tl
-  end.
-Definition kmap_del (k : Z) (l : list kentry) : list kentry := filter (fun e => negb (ke_key e =? k)) l.
-
-(* BPF_ANY update of a hash map: replaces an existing key, else needs a free slot *)
-Definition kmap_put (max : Z) (e : kentry) (l : list kentry) : option (list kentry) :=
-  if kmap_mem (ke_key e) l || (Z.of_nat (length l) <? max) then Some (kmap_ins e l) else None.
-
-Definition kentry_of (c : cfg) (a : alloc) : kentry :=
-  {| ke_key := a_priv a; ke_pub := a_pub a; ke_start := a_start a; ke_end := a_end a; ke_next := a_start a;
-     ke_sid := a_sid a; ke_log2 := Z.log2 (c_pps c) mod 256; ke_rest0 := true |}.
-Definition kentry_foreign (k : Z) : kentry :=
-  {| ke_key := k; ke_pub := 0; ke_start := 0; ke_end := 0; ke_next := 0; ke_sid := 0; ke_log2 := 0; ke_rest0 := true |}.
-
-Inductive kop := KO (o : op) | KPut (k : Z) | KDel (k : Z) | KDump.
-Inductive kout := KOut (r : out) | KMap (l : list kentry).
-
-Definition kstep (ks : kstate) (o : kop) : kstate * kout * list N :=
-  let s := k_s ks in
-  match o with
-  | KO (Alloc priv) =>
-      let '(s', r, mk) := step s (Alloc priv) in
-      match find_alloc priv (s_allocs s), find_alloc priv (s_allocs s') with
-      | None, Some a =>      (* a new allocation: the map write comes before the bookkeeping *)
-          match kmap_put (k_max ks) (kentry_of (s_cfg s) a) (k_map ks) with
-          | Some m' => ({| k_s := s'; k_max := k_max ks; k_map := m' |}, KOut r, mk)
-          | None =>
-              ({| k_s := {| s_cfg := s_cfg s; s_mode := s_mode s; s_pool := s_pool s; s_allocs := s_allocs s;
-                            s_next_sid := s_next_sid s'; s_sids := s_sids s';
-                            s_clock := s_clock s'; s_log := s_log s |};
-                  k_max := k_max ks; k_map := k_map ks |},
-               KOut (mk_out (RErr 3) []), mk)
-          end
-      | _, _ => ({| k_s := s'; k_max := k_max ks; k_map := k_map ks |}, KOut r, mk)
-      end
-  | KO (Dealloc priv) =>
-      let '(s', r, mk) := step s (Dealloc priv) in
-      ({| k_s := s'; k_max := k_max ks;
-          k_map := match find_alloc priv (s_allocs s) with Some _ => kmap_del priv (k_map ks) | None => k_map ks end |},
-       KOut r, mk)
-  | KO o' => let '(s', r, mk) := step s o' in ({| k_s := s'; k_max := k_max ks; k_map := k_map ks |}, KOut r, mk)
-  | KPut k =>
-      match kmap_put (k_max ks) (kentry_foreign k) (k_map ks) with
-      | Some m' => ({| k_s := s; k_max := k_max ks; k_map := m' |}, KOut (mk_out RNone []), [])
-      | None => (ks, KOut (mk_out (RErr 3) []), [])
-      end
-  | KDel k => ({| k_s := s; k_max := k_max ks; k_map := kmap_del k (k_map ks) |}, KOut (mk_out RNone []), [])
-  | KDump => (ks, KMap (k_map ks), [])
-  end.
-
-Definition kentry_eqb (a b : kentry) : bool :=
-  (ke_key a =? ke_key b) && (ke_pub a =? ke_pub b) && (ke_start a =? ke_start b) && (ke_end a =? ke_end b) &&
-  (ke_next a =? ke_next b) && (ke_sid a =? ke_sid b) && (ke_log2 a =? ke_log2 b) && Bool.eqb (ke_rest0 a) (ke_rest0 b).
-Definition kout_eqb (a b : kout) : bool :=
-  match a, b with
-  | KOut x, KOut y => out_eqb x y
-  | KMap x, KMap y => list_eqb kentry_eqb x y
-  | _, _ => false
-  end.
